@@ -80,9 +80,9 @@ def k1a(ctx):
         schema = build_schema(sdl)
         an_graph = prune_inputs.input_graph(schema)
         order = list(an_graph)
-        ins = [[nm, an_graph[nm][0], an_graph[nm][1], "class " + nm] for nm in order]
+        ins = [[nm, an_graph[nm][0], an_graph[nm][1], "class " + nm, [], []] for nm in order]
         ens = [[e, "enum " + e] for e, t in schema.type_map.items() if e.startswith("E") and len(e) == 2]
-        cmds.append([Sym("generate"), ins, ens, roots, [], [], [], False, False, False, [], []])
+        cmds.append([Sym("generate"), ins, ens, roots, [], [], [], False, False, False, [], [], []])
         graph_sx = [[nm, an_graph[nm][0]] for nm in order]
         t = roots[0] if roots else order[0]
         cmds.append([Sym("deps"), graph_sx, t])
@@ -145,18 +145,21 @@ def requests_for(sc, scratch, extra_cfg=None):
     return reqs
 
 
-def model_cmds(an, unpruned_files):
-    ins_cls = prune_inputs.classes_of(unpruned_files.get("input_types.py", ""))
+def model_cmds(an, unpruned_files, scalars_cfg=None):
+    text_in = unpruned_files.get("input_types.py", "")
+    ins_cls = prune_inputs.classes_of(text_in)
     en_cls = prune_inputs.classes_of(unpruned_files.get("enums.py", ""))
+    needs = prune_inputs.class_needs(text_in)
+    sc_items = prune_inputs.input_scalar_items(an.schema, scalars_cfg or {})
     ins = []
     for name, text in ins_cls:
         deps, enums = an.graph.get(name, ([], []))
-        ins.append([name, deps, enums, text])
+        ins.append([name, deps, enums, text, needs.get(name, []), sc_items.get(name, [])])
     ens = [[n, t] for n, t in en_cls]
     custom = bool(getattr(an, "custom", False))
     return [[Sym("generate"), ins, ens, an.arg_inputs, an.arg_enums, an.res_enums, an.frag_enums, fi, fe,
-             custom, getattr(an, "builder_inputs", []), getattr(an, "builder_enums", [])]
-            for fi, fe in FLAGS], ins_cls, en_cls
+             custom, getattr(an, "builder_inputs", []), getattr(an, "builder_enums", []), prune_inputs.PREAMBLE]
+            for fi, fe in FLAGS], ins_cls, en_cls, needs
 
 
 def drive(gens, rng_seed, n_plans):
@@ -191,7 +194,7 @@ def behaviour(r):
             "result": r.get("result"), "exc": r.get("exc")}
 
 
-def check_scenario(run, sc, gens, driven, mres, ins_cls, en_cls, an, stream):
+def check_scenario(run, sc, gens, driven, mres, ins_cls, en_cls, an, stream, needs):
     base = {"seed": sc.seed, "stream": stream, "schema": sc.sdl, "queries": sc.queries, "notes": sc.notes}
     un = gens[0]
     files0 = un.files()
@@ -226,7 +229,15 @@ def check_scenario(run, sc, gens, driven, mres, ins_cls, en_cls, an, stream):
             continue
         m_in = [(d[0], d[1]) for d in m[1][0]]
         m_en = [(d[0], d[1]) for d in m[1][1]]
-        k1_ok = (m_in == got_in and m_en == got_en)
+        # imports of input_types.py: model prediction (exact) and the property-level cover check
+        got_imp = sorted(set(prune_inputs.import_items(files.get("input_types.py", ""))))
+        m_imp = sorted(set(m[1][3]))
+        needed = sorted({x for n, _ in got_in for x in needs.get(n, [])})
+        missing_imp = [x for x in needed if x not in got_imp]
+        run.dist("autoflake_gives_up", "yes" if m[1][4] == "t" else "no")
+        if needed and any(not x.startswith(("typing:", "pydantic:", ".base_model:BaseModel")) for x in needed) and not fi:
+            run.nontrivial_case((sc.seed, stream, "imp", tag, tuple(needed)))
+        k1_ok = (m_in == got_in and m_en == got_en and m_imp == got_imp)
         # ---- K3a: the closure the property names
         names_in = [n for n, _ in got_in]
         names_en = [n for n, _ in got_en]
@@ -249,6 +260,8 @@ def check_scenario(run, sc, gens, driven, mres, ins_cls, en_cls, an, stream):
                 problems.append(f"enum class {n} differs textually from its unpruned counterpart")
         if len(set(names_in)) != len(names_in) or len(set(names_en)) != len(names_en):
             problems.append("duplicate class")
+        if missing_imp:
+            problems.append(f"input_types.py lacks imports its retained classes refer to: {missing_imp}")
         if problems:
             only_missing = set(names_in) <= spec_in and set(names_en) <= spec_en and all("missing" in p for p in problems)
             fail(f"[{tag}] retained definitions are not the closure: " + "; ".join(problems[:4]),
@@ -256,9 +269,11 @@ def check_scenario(run, sc, gens, driven, mres, ins_cls, en_cls, an, stream):
                   "expected": {"inputs": sorted(spec_in), "enums": sorted(spec_en)}},
                  cls=cls if only_missing else None)
         elif not k1_ok:
-            run.violation(f"[{tag}] K1b: Model/Prune.v predicts inputs {[n for n, _ in m_in]} enums {[n for n, _ in m_en]}, "
-                          f"generator wrote inputs {names_in} enums {names_en} (closure oracle still satisfied)",
-                          dict(rep, model={"inputs": m_in, "enums": m_en}, observed={"inputs": got_in, "enums": got_en}),
+            run.violation(f"[{tag}] K1b: Model/Prune.v predicts inputs {[n for n, _ in m_in]} enums {[n for n, _ in m_en]} "
+                          f"imports {m_imp}, generator wrote inputs {names_in} enums {names_en} imports {got_imp} "
+                          f"(closure and import-cover oracles still satisfied)",
+                          dict(rep, model={"inputs": m_in, "enums": m_en, "imports": m_imp},
+                               observed={"inputs": got_in, "enums": got_en, "imports": got_imp}),
                           found_input=False)
         if not fi and len(names_in) not in (0, len(all_inputs)):
             run.nontrivial_case((sc.seed, stream, "in", tuple(names_in)))
@@ -291,6 +306,8 @@ def check_scenario(run, sc, gens, driven, mres, ins_cls, en_cls, an, stream):
         for _e, ro in sc.notes["routes"].items():
             run.dist("enum_route", ro)
         run.dist("ops_with_variables", str(sc.notes["ops_with_variables"]))
+        run.dist("import_carrying_input_fields", str(min(sc.notes.get("scalar_fields", 0), 6)))
+        run.dist("scalars_configured", str(sc.notes.get("scalars_configured", 0)))
 
 
 def run_stream(ctx, scs, stream, extra_cfg=None, n_plans=2):
@@ -321,12 +338,12 @@ def run_stream(ctx, scs, stream, extra_cfg=None, n_plans=2):
                 bi, be = prune_inputs.builder_imports(gens[0].files(), set(an.graph), set(an.enum_names))
                 an.custom, an.builder_inputs, an.builder_enums = True, bi, be
                 run.dist("custom_ops_builder_imports", f"inputs={len(bi)},enums={len(be)}")
-            c, ins_cls, en_cls = model_cmds(an, gens[0].files())
+            c, ins_cls, en_cls, needs = model_cmds(an, gens[0].files(), gens[0].res.get("config", {}).get("scalars"))
             cmds += c
-            meta.append((an, ins_cls, en_cls))
+            meta.append((an, ins_cls, en_cls, needs))
         mres = model.batch("C09", cmds)
-        for i, ((sc, gens), drv, (an, ins_cls, en_cls)) in enumerate(zip(usable, driven, meta)):
-            check_scenario(run, sc, gens, drv, mres[4 * i: 4 * i + 4], ins_cls, en_cls, an, stream)
+        for i, ((sc, gens), drv, (an, ins_cls, en_cls, needs)) in enumerate(zip(usable, driven, meta)):
+            check_scenario(run, sc, gens, drv, mres[4 * i: 4 * i + 4], ins_cls, en_cls, an, stream, needs)
             if len(run.samples) < 6 and stream == "prune":
                 files = gens[3].files()
                 run.sample({"stream": stream, "seed": sc.seed, "shape": sc.notes.get("shape"),
@@ -362,6 +379,7 @@ def run(ctx):
             scs.append(prune_scen.make(base + i))
         except RuntimeError:
             run.dist("skipped", "prune generator gave up")
+    scs.insert(0, prune_scen.deep_scalar_regression())
     n1 = run_stream(ctx, scs, "prune", n_plans=3 if ctx.thorough else 2)
     mains = []
     for i in range(n_main):
